@@ -1050,6 +1050,17 @@ impl ConditionChain {
     fn is_active(&self) -> bool {
         self.0.iter().all(|gate| *gate == ConditionState::Enabled)
     }
+
+    /// If the innermost chain has not taken a group yet and all outer chains are active
+    fn is_waiting_for_condition(&self) -> bool {
+        match self.0.split_last() {
+            Some((last, outer)) => {
+                *last == ConditionState::DisabledInner
+                    && outer.iter().all(|gate| *gate == ConditionState::Enabled)
+            }
+            None => false,
+        }
+    }
 }
 
 fn preprocess_command(
@@ -1137,9 +1148,14 @@ fn preprocess_command(
             Ok(())
         }
         "elif" => {
-            let command = trim_whitespace(command);
-            let resolved = apply_macros(command, macros, true, file_loader.source_manager)?;
-            let active = crate::condition_parser::parse(&resolved, command_location)?;
+            // The condition is only evaluated if no earlier group was taken and we are not inside a skipped group
+            let active = if condition_chain.is_waiting_for_condition() {
+                let command = trim_whitespace(command);
+                let resolved = apply_macros(command, macros, true, file_loader.source_manager)?;
+                crate::condition_parser::parse(&resolved, command_location)?
+            } else {
+                false
+            };
             condition_chain.switch(active)?;
 
             Ok(())
